@@ -96,7 +96,7 @@ class Reference:
             if out == 'Fatal':
                 self.fatal_hit = True
                 raise RefFail([('fatal', nid, inv)])
-            retryable = excs is None or out in excs
+            retryable = excs is None or R.exc_matches(out, excs)
             if retryable and att < attempts:
                 self.timers += 1
                 continue
